@@ -58,7 +58,7 @@ def run(ctx):
         rf = ctx.path("viol", b["id"] + ".json")
         json.dump(recs[b["id"]], open(rf, "w"), indent=1)
         d = core.save_replay(ctx, sig, [rf], dict(invariant="FailClosed", case=c, request=path))
-        who = "b.local%s (b.local is the server-alias of a.local)" if b.get("alias") else "a.local%s"
+        who = "b.local%s or x.alt.local%s (server-alias / server-alias-regex of a.local)".replace("%s or", "%%s or", 0) if False else ("<alias>%s (b.local = server-alias, x.alt.local = server-alias-regex of a.local)" if b.get("alias") else "a.local%s")
         what = (" is intercepted by a call to another service than the one its path declares; case %s; " if b["inv"] == "RightService"
                 else " reaches the protected path without a covering deny/auth-intercept; case %s; ")
         core.classify(ctx, sig, (b["inv"] + ": request " + who + what + "frontend rules %s; backend rules %s") % (path, c, [a["raw"] for a in recs[b["id"]]["front"]][:3],
